@@ -46,12 +46,12 @@ CHECKS["C06"] = dict(
     note="Coq kernel+VM; hand model tied by correspondence; UFL build_integral_data; cffi/gcc",
     design="DESIGN.md S.2 and 3 C06")
 CHECKS["C17"] = dict(
-    technique="Coq proof: (1) overloads translated from lnodes.py on every run (tr_smart): value preservation for all operands and stores in any commutative ring, float_product, correspondence Python result tree vs translated function on every operand-kind pair; (2) optimiser passes: per exported kernel pair (passes on / off) symbolic execution of both kernels in the free term algebra (homomorphism theorem Sym.run_hom) and comparison of the outputs as polynomials over the inputs with Coq's ring normaliser (SymEq.kernels_equiv_sound), evaluated by vm_compute for every admissible entity/permutation value; LN.exec vs gcc bit-exact",
+    technique="Coq proof: (1) overloads translated from lnodes.py on every run (tr_smart): value preservation for all operands and stores in any commutative ring, float_product, correspondence Python result tree vs translated function on every operand-kind pair; (2) optimiser: hand model Opt.v of optimizer.py tied by node-by-node comparison of Opt.optimize with the real result on every captured optimize() call (optcorr.py); section fusion and loop fusion proved, for all code lists and all inputs, to refine the code under a decidable side condition evaluated by vm_compute per captured call (Footprint.v: footprints of LN.exec, commutation of non-interfering statements, verified reorder checker, block merge, n-ary loop fusion; OptSound.v); optimize = licm after the fusing passes; licm: algebraic half for all products, and per exported kernel pair (passes on / off) symbolic execution of both kernels in the free term algebra (homomorphism theorem Sym.run_hom) and comparison of the outputs as polynomials over the inputs with Coq's ring normaliser (SymEq.kernels_equiv_sound), evaluated by vm_compute for every admissible entity/permutation value; LN.exec vs gcc bit-exact",
     text="LExpr.__neg__/__add__/__radd__/__sub__/__rsub__/__mul__/__rmul__/__div__/__rdiv__ and float_product build trees with the same numeric value as the unsimplified operation for all operand kinds/values (exact arithmetic; IEEE corner cases excluded). Optimiser half: for each sampled form, the kernel generated with fuse_sections/fuse_loops/licm and the kernel generated without them are proved to return the same tensor for ALL real inputs (literals, division and math functions uninterpreted; ring operations of Z, i.e. a polynomial identity) and all listed entity/permutation combinations (all of them when at most 8 in the quick tier / 200 in the thorough tier, else a sample). Not proved: the passes as functions on arbitrary ASTs; kernels with conditionals are compared by execution on random inputs.",
     note="Coq kernel+VM; tr_smart.py; exporter; ring hypotheses (satisfiable: SmartQc.v); Ring_polynom (stdlib) for the normal forms; atoms (input cells, literals, quotients, function applications) compared syntactically; forms sampled",
     design="DESIGN.md S.2 and 3 C17")
 CHECKS["C13"] = dict(
-    technique="Coq proof of injectivity of the signature pre-image encoding (separator-joined fields, fixed-length digests) and of name distinctness under an injective digest; shape check of naming.py by translator; subprocess runs across hash seeds / object counters / prior compilations; request pairs that must be kept apart",
+    technique="Coq proof of injectivity of the signature pre-image encoding (separator-joined fields, fixed-length digests) and of name distinctness under an injective digest; shape check of naming.py by translator; names taken from the real entry points (compile_forms / compile_expressions stopped at the cache lookup) in subprocess runs across hash seeds / object counters / prior compilations, with one and with several compiler flags; request pairs that must be kept apart (incl. the order of compiler flags)",
     text="The text hashed into module and object names determines every component (forms, version, ufcx.h hash, kind, options+flags tag) - proved for all inputs of the encoding; SHA-1 and UFL signatures are assumed injective/renumbering-invariant. Stability and separation are exercised in fresh processes (seeds, histories, near-equal and large point arrays, flags, options).",
     note="Coq kernel; SHA-1; UFL signatures; Python str() of tuples/options; tr_naming.py",
     design="DESIGN.md S.2 and 3 C13")
@@ -68,13 +68,13 @@ CHECKS["C14"] = dict(
     note="Coq kernel+VM; hand model tied by trace conformance; POSIX exclusivity of open('x'), atomic rename, dlopen of a complete file; wall-clock timeout modelled as a poll counter",
     design="DESIGN.md S.2 and 3 C14, Appendix B")
 CHECKS["C15"] = dict(
-    technique="Coq proof over the same transition system with fault and kill transitions at every point: no partial load and marker-implies-complete after any kill/failure on every trace, failed build releases the lock, root logger handlers restored in every request that returns or raises (restore_on_fault, atomic_marker read off the source by tr_jit); fault/kill-injected trace conformance with faults at code generation, compile, link, log write and marker publication; scripted schedule for the former marker-window defect",
+    technique="Coq proof over the same transition system with fault and kill transitions at every point: no partial load and marker-implies-complete after any kill/failure on every trace, failed build releases the lock, root logger handlers restored in every request that returns or raises (restore_on_fault, atomic_marker read off the source by tr_jit); the publication of the marker is the last statement of the build (nothing that can fail comes between 'the marker exists' and the return: read off the source by tr_jit, fail-closed); fault/kill-injected trace conformance with faults at code generation, compile, link, the verbose echo of the compiler log (requests run with cffi_verbose=True), log write and marker publication; scripted schedule for the former marker-window defect",
     text="For every crash point and every later history: later requests load a complete module or raise, never a partial one; after a failed build the lock is renamed and the next request builds; process-global logger state is restored. With the marker created empty and then filled (the code before fix 4061520) the safety statement is false (Jit.marker_window_refuted); with atomic publication it holds for every trace. A request in which nothing failed may not raise a build error.",
     note="Coq kernel+VM; hand model tied by fault-injected trace conformance; kill = process disappears between two file-system calls; POSIX assumptions as C14",
     design="DESIGN.md S.2 and 3 C15, Appendix B")
 
 CHECKS["C01"] = dict(
-    technique="Coq proof that the argument factorisation (model Fact.v of ffcx/ir/analysis/factorization.py, tied by exact correspondence on every integrand of the sampled forms) preserves the value of every multilinear integrand in every commutative ring with conjugation; Coq proof that the classification and reduction of element tables (model Tab.v over Q; predicates regenerated by tr_tab and pinned; real predicates vs model on generated dyadic tables) leaves the value read by table_access within the table tolerances, inside the reduced extent; Coq proof of the layout facts (row-major flattening = printed stride expression, bijective onto [0,prod); blocked layout) + independent oracle (UFL point evaluation of the original integrand, textbook push-forwards, basix tabulation) against every cell kernel of the corpus; per exported kernel the theorems of C05/C07/C08/C16/C17/C19",
+    technique="Coq proof (Lookup.v over the table lnodes._ufl_call_lookup regenerated by tr_lookup.py) that every UFL comparison / connective / conditional / arithmetic operator and elementary function is translated to the LNodes node of the same meaning; Coq proof that the argument factorisation (model Fact.v of ffcx/ir/analysis/factorization.py, tied by exact correspondence on every integrand of the sampled forms) preserves the value of every multilinear integrand in every commutative ring with conjugation; Coq proof that the classification and reduction of element tables (model Tab.v over Q; predicates regenerated by tr_tab and pinned; real predicates vs model on generated dyadic tables) leaves the value read by table_access within the table tolerances, inside the reduced extent; Coq proof of the layout facts (row-major flattening = printed stride expression, bijective onto [0,prod); blocked layout) + independent oracle (UFL point evaluation of the original integrand, textbook push-forwards, basix tabulation) against every cell kernel of the corpus; per exported kernel the theorems of C05/C07/C08/C16/C17/C19",
     text="The end-to-end statement (kernel = quadrature sum of the form) is decided per sampled form by differential execution against an independent oracle (agreement to ~1e-15 relative): NOT a theorem. Proved for all inputs are the soundness of the argument factorisation (integrand = sum over argkeys of factor times arguments, for all multilinear integrands; multilinearity is checked on every exported integrand) and the index-layout lemmas; proved per exported kernel are purity/accumulation, bounds, packing, C text = AST. Partial: UFL lowering, basix, table compression and the partition into loops are not modelled.",
     note="oracle (harness/oracle.py) trusted as specification; forms sampled (pinned + seeded random, explicit quadrature degrees); Coq kernel for Flatten.v, Fact.v; factcorr.py exporter",
     design="DESIGN.md S.2 and 3 C01")
